@@ -3,17 +3,17 @@ PROP = dict(
         tie_coq=["Properties/TieC06.v"],
         workloads=[
             dict(name="amm-pure", go_test="TestC06Pure", runner="C06",
-                 env=dict(quick=dict(VERIF_CASES=3000, VERIF_SMALL=4), thorough=dict(VERIF_CASES=40000, VERIF_SMALL=10))),
+                 env=dict(quick=dict(VERIF_CASES=3000, VERIF_SMALL=4), thorough=dict(VERIF_CASES=25000, VERIF_SMALL=8))),
             dict(name="amm-sequences", go_test="TestC06Seq", runner="C06",
-                 env=dict(quick=dict(VERIF_CASES=170), thorough=dict(VERIF_CASES=5000))),
+                 env=dict(quick=dict(VERIF_CASES=170), thorough=dict(VERIF_CASES=3000))),
             dict(name="amm-ranged", go_test="TestC06Ranged", runner="C06",
                  env=dict(quick=dict(VERIF_CASES=45, VERIF_C06_NEIGH=1), thorough=dict(VERIF_CASES=1500, VERIF_C06_NEIGH=4))),
             dict(name="liquidity-keeper", go_test="TestC06Keeper", runner="C06-keeper",
-                 env=dict(quick=dict(VERIF_CASES=14), thorough=dict(VERIF_CASES=500))),
+                 env=dict(quick=dict(VERIF_CASES=14), thorough=dict(VERIF_CASES=300))),
         ],
         exhaustive_in=dict(thorough=True),
         rule="amm-pure: case = one call of the real amm.Deposit / amm.Withdraw / InitialPoolCoinSupply; first every (rx,ry,ps,x,y) in 0..S (ps=0 is the panic path) "
-             "and every withdrawal (rx,ry,ps in 0..S, pc<=ps, fee in {0,0.003,0.5,1}) with S=4 quick / S=10 thorough, then random operands of 1-133 bits incl. "
+             "and every withdrawal (rx,ry,ps in 0..S, pc<=ps, fee in {0,0.003,0.5,1}) with S=4 quick / S=8 thorough, then random operands of 1-133 bits incl. "
              "0, 1, 10^40, 10^40+-1, 2^133-1, powers of ten, thirds, offers in the pool's ratio, 2% malformed (negative, >200-bit, fee>1); non-trivial = the call minted shares / paid coins. "
              "amm-sequences: case = CreateBasicPool on random reserves then 5-40 deposits/withdrawals threaded exactly as ExecuteDepositRequest/ExecuteWithdrawRequest do "
              "(depleted -> fail, pc=0 -> fail, x=y=0 -> fail), incl. last-share redemptions, pc=ps-1, pc=ps+1, tiny deposits into big pools; non-trivial = at least one executed deposit and one executed withdrawal. "
